@@ -621,7 +621,7 @@ impl Mul for &Number {
                     if rhs.is_integer() {
                         (&**lhs * rhs.to_integer()).into()
                     } else {
-                        (lhs.to_f64().unwrap() * rhs.to_f64().unwrap_or(f64::NAN)).into()
+                        approximate(&Number::BigInt(lhs.clone()), &Number::Rational(*rhs), false)
                     }
                 }
             },
@@ -648,7 +648,7 @@ impl Mul for &Number {
                     if lhs.is_integer() {
                         (&**rhs * lhs.to_integer()).into()
                     } else {
-                        (rhs.to_f64().unwrap() * lhs.to_f64().unwrap_or(f64::NAN)).into()
+                        approximate(&Number::Rational(*lhs), &Number::BigInt(rhs.clone()), false)
                     }
                 }
                 Number::Rational(rhs) => match lhs.checked_mul(rhs) {
@@ -766,6 +766,23 @@ fn ratio_div(lhs: &Rational32, rhs: &Rational32) -> Option<Rational32> {
     lhs.checked_div(rhs)
 }
 
+/// The inexact stand-in for an exact product or quotient that no representation holds:
+/// the exact result, computed in arbitrary precision and rounded once. Converting the
+/// operands first gives infinity for a bignum beyond the range of a double, whatever
+/// the result is.
+fn approximate(lhs: &Number, rhs: &Number, quotient: bool) -> Number {
+    match (lhs.to_big_rational(), rhs.to_big_rational()) {
+        (Some(lhs), Some(rhs)) if !quotient => (lhs * rhs).to_f64().unwrap_or(f64::NAN).into(),
+        (Some(lhs), Some(rhs)) if rhs.numer().sign() != num::bigint::Sign::NoSign => {
+            (lhs / rhs).to_f64().unwrap_or(f64::NAN).into()
+        }
+        _ => {
+            let (lhs, rhs) = (lhs.to_f64().unwrap_or(f64::NAN), rhs.to_f64().unwrap_or(f64::NAN));
+            (if quotient { lhs / rhs } else { lhs * rhs }).into()
+        }
+    }
+}
+
 /// The quotient of two big integers as a float. Converting the operands first gives
 /// inf / inf = NaN as soon as both exceed the range of a double, whatever their quotient is;
 /// the exact quotient is converted instead.
@@ -812,7 +829,7 @@ impl Div for &Number {
                 Number::Fixnum(rhs) => {
                     match ratio_of(lhs.to_i32(), rhs.to_i32()) {
                         Some(num) => num.into(),
-                        None => (lhs.to_f64().unwrap_or(f64::NAN) / *rhs as f64).into(),
+                        None => approximate(&Number::BigInt(lhs.clone()), &Number::Fixnum(*rhs), true),
                     }
                 }
                 Number::BigInt(rhs) => {
@@ -827,11 +844,11 @@ impl Div for &Number {
                         match ratio_div(&Rational32::from_integer(lhs.to_i32().unwrap()), rhs) {
                             Some(num) => num.into(),
                             None => {
-                                (lhs.to_f64().unwrap() / rhs.to_f64().unwrap_or(f64::NAN)).into()
+                                approximate(&Number::BigInt(lhs.clone()), &Number::Rational(*rhs), true)
                             }
                         }
                     } else {
-                        (lhs.to_f64().unwrap() / rhs.to_f64().unwrap_or(f64::NAN)).into()
+                        approximate(&Number::BigInt(lhs.clone()), &Number::Rational(*rhs), true)
                     }
                 }
             },
